@@ -4,6 +4,7 @@ _async_request, _dispatch_request's _last_traceback)
 and rpyc/core/netref.py (BaseNetref.__init__/__del__).  Typed items become the record Gen_colls.params that
 proofs/RefcountTie.v equates with the parameters the theorems are proved for; everything else is a shape."""
 from .core import *
+from .core import _Inert
 
 SRC = "rpyc/lib/colls.py"
 SRC_PROTOCOL = "rpyc/core/protocol.py"
@@ -198,6 +199,84 @@ def _send_checks_closed(conn):
     return guarded
 
 
+_UNREG = "self._unregister_boxed(boxed)"
+_BOX_TUPLE_PLAIN = "return (consts.LABEL_TUPLE, tuple((self._box(item) for item in obj)))"
+_BOX_TUPLE_ROLLBACK = ("boxed = []\ntry:\n    for item in obj:\n        boxed.append(self._box(item))\nexcept BaseException:\n"
+                       "    self._unregister_boxed((consts.LABEL_TUPLE, boxed))\n    raise\nreturn (consts.LABEL_TUPLE, tuple(boxed))")
+_UNREGISTER = ("def _unregister_boxed(self, package):\n    label, value = package\n    if label == consts.LABEL_TUPLE:\n"
+               "        for item in value:\n            self._unregister_boxed(item)\n    elif label == consts.LABEL_REMOTE_REF:\n"
+               "        self._local_objects.decref(value)")
+
+
+def _box_form(conn):
+    """(canonical shape text of _box, rolls back): the tuple branch either boxes with a generator (what it registered for
+    earlier items stays when a later item fails) or item by item, giving back on failure"""
+    fn = _Inert().visit(ast.parse(ast.unparse(find_func(conn, "_box"))).body[0])
+    tup = [st for st in fn.body if isinstance(st, ast.If) and _u(st.test) == "type(obj) is tuple"]
+    if len(tup) != 1:
+        raise Unrecognised("_box: tuple branch")
+    inner = "\n".join(_u(x) for x in tup[0].body)
+    if inner == _BOX_TUPLE_PLAIN:
+        return ast.unparse(fn), False
+    if inner == _BOX_TUPLE_ROLLBACK:
+        tup[0].body = ast.parse(_BOX_TUPLE_PLAIN).body       # the same function with the plain tuple branch: one snapshot serves both forms
+        return ast.unparse(fn), True
+    raise Unrecognised("_box: tuple branch is neither the plain nor the rolling-back form")
+
+
+def _failed_send_releases(conn):
+    """what _box registered is given back when the message is not sent: _box rolls back a half-boxed tuple, _async_request and
+    the reply path of _dispatch_request unregister after a failed box/send.  All three or none (fail closed)."""
+    _, box_rb = _box_form(conn)
+    try:
+        unreg = func_shape(find_func(conn, "_unregister_boxed")) == _UNREGISTER
+        has_unreg = True
+    except Unrecognised:
+        unreg, has_unreg = False, False
+    if has_unreg and not unreg:
+        raise Unrecognised("_unregister_boxed: body")
+    areq = find_func(conn, "_async_request")
+    a_un = sum(1 for x in ast.walk(areq) if isinstance(x, ast.Expr) and _u(x) == _UNREG)
+    disp = find_func(conn, "_dispatch_request")
+    d_un = sum(1 for x in ast.walk(disp) if isinstance(x, ast.Expr) and _u(x) == _UNREG)
+    if box_rb and unreg and a_un == 1 and d_un == 1:
+        # the unregister calls sit in the handlers of the try that boxes and sends
+        for fn in (areq, disp):
+            ok = False
+            for tr in ast.walk(fn):
+                if isinstance(tr, ast.Try) and any(_u(x) == "boxed = self._box(args)" or _u(x) == "boxed = self._box(res)" for x in tr.body):
+                    ok = any(any(_u(y) == "if boxed is not None:\n    " + _UNREG for y in h.body) for h in tr.handlers if _u(h.type) == "Exception")
+            if not ok:
+                raise Unrecognised("%s: unregister not in the handler of the boxing try" % fn.name)
+        return True
+    if not box_rb and not has_unreg and a_un == 0 and d_un == 0:
+        return False
+    raise Unrecognised("failed-send rollback only partly present")
+
+
+def _reply_checks_closed(conn):
+    """_dispatch_request refuses (EOFError) before boxing the result once the channel is closed"""
+    fn = find_func(conn, "_dispatch_request")
+    tries = [st for st in strip_doc(fn.body) if isinstance(st, ast.Try)]
+    if len(tries) != 1 or not tries[0].orelse:
+        raise Unrecognised("_dispatch_request: shape")
+    inner = [st for st in tries[0].orelse if isinstance(st, ast.Try)]
+    if len(inner) != 1:
+        raise Unrecognised("_dispatch_request: reply try")
+    n_box = sum(1 for x in ast.walk(inner[0]) if isinstance(x, ast.Call) and _u(x.func) == "self._box")
+    if n_box != 1:
+        raise Unrecognised("_dispatch_request: boxing of the result")
+    guards = [i for i, st in enumerate(inner[0].body) if isinstance(st, ast.If) and _u(st.test) == "self._channel.closed"]
+    if not guards:
+        return False
+    g = inner[0].body[guards[0]]
+    box_at = [i for i, st in enumerate(inner[0].body) if any(isinstance(x, ast.Call) and _u(x.func) == "self._box" for x in ast.walk(st))]
+    if not (len(g.body) == 1 and isinstance(g.body[0], ast.Raise) and _u(g.body[0].exc).startswith("EOFError(") and not g.orelse
+            and box_at and guards[0] < box_at[0]):
+        raise Unrecognised("_dispatch_request: closed test")
+    return True
+
+
 def _keeps_last_traceback(conn):
     fn = find_func(conn, "_dispatch_request")
     n = sum(1 for x in ast.walk(fn) if isinstance(x, ast.Assign) and _u(x) == "self._last_traceback = tb")
@@ -246,6 +325,8 @@ def facts(repo):
     f["close_finally"] = _close_finally(conn)
     f["send_checks_closed"] = _send_checks_closed(conn)
     f["keeps_last_traceback"] = _keeps_last_traceback(conn)
+    f["failed_send_releases"] = _failed_send_releases(conn)
+    f["reply_checks_closed"] = _reply_checks_closed(conn)
     return f
 
 
@@ -254,7 +335,8 @@ def params_sx(repo):
     f = facts(repo)
     return [f["add_init"], f["add_inc"], CMP_NUM[f["dec_cmp"]], f["handle_del_default"], f["proxy_init"], f["unbox_inc"],
             f["del_src"][1], 1 if f["cleanup_clears"] else 0, 1 if f["send_checks_closed"] else 0,
-            1 if f["cleanup_guarded"] else 0, 1 if f["close_finally"] else 0]
+            1 if f["cleanup_guarded"] else 0, 1 if f["close_finally"] else 0,
+            1 if f["failed_send_releases"] else 0, 1 if f["reply_checks_closed"] else 0]
 
 
 def translate(repo):
@@ -277,12 +359,15 @@ def translate(repo):
                typed("send_checks_closed", "bool", coq_bool(f["send_checks_closed"])),
                typed("cleanup_guarded", "bool", coq_bool(f["cleanup_guarded"])),
                typed("close_finally", "bool", coq_bool(f["close_finally"])),
-               typed("keeps_last_traceback", "bool", coq_bool(f["keeps_last_traceback"]))]
+               typed("keeps_last_traceback", "bool", coq_bool(f["keeps_last_traceback"])),
+               typed("failed_send_releases", "bool", coq_bool(f["failed_send_releases"])),
+               typed("reply_checks_closed", "bool", coq_bool(f["reply_checks_closed"]))]
         out.append(typed("params", "rparams",
                          "{| p_add_init := add_init; p_add_inc := add_inc; p_dec_cmp := dec_cmp; "
                          "p_dec_default := handle_del_default; p_proxy_init := proxy_init; p_unbox_inc := unbox_inc; "
                          "p_del_src := del_src; p_cleanup_clears := cleanup_clears; p_send_checks_closed := send_checks_closed; "
-                         "p_cleanup_guarded := cleanup_guarded; p_close_finally := close_finally |}"))
+                         "p_cleanup_guarded := cleanup_guarded; p_close_finally := close_finally; "
+                         "p_failed_send_releases := failed_send_releases; p_reply_checks_closed := reply_checks_closed |}"))
         return out
     guarded("params", typed_facts)
 
@@ -299,7 +384,11 @@ def translate(repo):
         return f
     guarded("colls", shapes_of(SRC, "RefCountingColl", ["__init__", "add", "clear", "decref", "__getitem__"], "RefCountingColl."))
     guarded("weakdict", shapes_of(SRC, "WeakValueDict", ["__contains__", "__getitem__", "__setitem__"], "WeakValueDict."))
-    guarded("protocol", shapes_of(SRC_PROTOCOL, "Connection", ["_box", "_unbox", "_handle_del"], "Connection."))
+    guarded("protocol", shapes_of(SRC_PROTOCOL, "Connection", ["_unbox", "_handle_del"], "Connection."))
+
+    def box_shape():
+        return shape("Connection._box", _box_form(find_class(parse(repo, SRC_PROTOCOL), "Connection"))[0])
+    guarded("Connection._box", box_shape)
     guarded("netref", shapes_of(SRC_NETREF, "BaseNetref", ["__init__", "__del__"], "BaseNetref."))
 
     def asyncreq_shape():
